@@ -500,7 +500,7 @@ def run(ctx):
         check_golden(ctx, brine)
         for i, v in enumerate(gen.boundary_values(surrogates=False)):
             check_value(ctx, brine, v, "boundary[%d]" % i)
-    for i in range(ctx.budget(12000, 2000000)):
+    for i in range(ctx.budget(12000, 10000000)):
         if ctx.enough():
             return
         v = gen.gen_plain(rng, surrogates=False)
@@ -509,14 +509,14 @@ def run(ctx):
             ctx.sample({"value": repr(v)[:160], "hex": rc.encode(v)[:40].hex()})
     if ctx.enough():
         return
-    check_frames(ctx, rng, ctx.budget(80, 4000))
-    for i in range(ctx.budget(100, 20000)):
+    check_frames(ctx, rng, ctx.budget(80, 16000))
+    for i in range(ctx.budget(100, 100000)):
         if ctx.enough():
             return
         s = convo_ref_client(ctx, rng, i)
         if i < 2:
             ctx.sample({"reference client script": s})
-    for i in range(ctx.budget(100, 20000)):
+    for i in range(ctx.budget(100, 100000)):
         if ctx.enough():
             return
         s = convo_ref_server(ctx, rng, i)
